@@ -120,9 +120,25 @@ def ser_label(lbl):
     return str(lbl)
 
 
+NORM_LIMIT = 2.0 ** 28   # TLC has 32 bit integers: an array is logged with data only if the sum of its squared
+                         # magnitudes stays below this (then every product, contraction sum and squared norm the spec forms fits)
+
+
+def _too_large(blocks):
+    tot = 0.0
+    for b in blocks:
+        a = np.asarray(b)
+        if a.dtype == bool or not np.issubdtype(a.dtype, np.number):
+            continue
+        tot += float(np.sum(np.abs(a.astype(np.complex128)) ** 2))
+        if not tot < NORM_LIMIT:      # also catches nan / inf
+            return True
+    return False
+
+
 def ser_array(x):
     global DATA_LIMIT
-    if ARRAY_LIMIT is not None and sum(int(np.size(b)) for b in x.blocks.values()) > ARRAY_LIMIT:
+    if (ARRAY_LIMIT is not None and sum(int(np.size(b)) for b in x.blocks.values()) > ARRAY_LIMIT) or _too_large(x.blocks.values()):
         saved, DATA_LIMIT = DATA_LIMIT, -1
         try:
             return _ser_array(x)
@@ -160,11 +176,17 @@ def _ser_array(x):
 
 
 def ser_vector(v):
+    global DATA_LIMIT
+    saved = DATA_LIMIT
+    if _too_large(v.blocks.values()):
+        DATA_LIMIT = -1
+    try:
+        blocks = [dict(ser_block((), a), c=ser_key(c)) for c, a in v.blocks.items()]
+    finally:
+        DATA_LIMIT = saved
     return {
         "t": "vector",
-        "blocks": [
-            dict(ser_block((), a), c=ser_key(c)) for c, a in v.blocks.items()
-        ],
+        "blocks": blocks,
         "ids": {"blocks": id(v._blocks) % LIMIT, "phases": 0},
     }
 
@@ -180,7 +202,7 @@ def ser_scalar(v):
 
 
 def ser_dense(a):
-    exact, data = ser_data(a)
+    exact, data = (False, []) if _too_large([a]) else ser_data(a)
     return {
         "t": "dense",
         "shape": [int(d) for d in np.shape(a)],
